@@ -36,7 +36,7 @@ struct St1;
 #[derive(Event, Serialize, Deserialize, Clone)]
 struct St2;
 
-pub const MENU_LEN: usize = 26;
+pub const MENU_LEN: usize = 28;
 
 /// Applies menu item `i`; returns what the hasher must have been fed: (kind, priority, type name).
 fn apply(app: &mut App, i: usize) -> (u8, u64, &'static str) {
@@ -71,6 +71,9 @@ fn apply(app: &mut App, i: usize) -> (u8, u64, &'static str) {
         23 => { app.make_trigger_independent::<S1>(); (7, 0, type_name::<S1>()) }
         24 => { app.add_server_event::<St1>(Channel::Ordered); (4, 0, type_name::<St1>()) }
         25 => { app.make_event_independent::<St1>(); (6, 0, type_name::<St1>()) }
+        // the client-side counterpart: one type as a client event in one build, as a client trigger in the other
+        26 => { app.add_client_trigger::<E1>(Channel::Ordered); (3, 0, type_name::<E1>()) }
+        27 => { app.add_client_event::<T1>(Channel::Ordered); (2, 0, type_name::<T1>()) }
         _ => panic!("menu index"),
     }
 }
@@ -196,7 +199,7 @@ fn edit(rng: &mut Rng, a: &[usize]) -> Vec<usize> {
         3 if !b.is_empty() => {
             // change of kind / priority / type in place
             let i = rng.below(b.len() as u64) as usize;
-            b[i] = match b[i] { 0 => *rng.pick(&[6, 7, 8, 9, 1, 2, 3]), 6 => 7, 7 => 8, 8 => 9, 4 => 5, 11 => 12, 14 => 15, 16 => 17, x => (x + 1) % 18 };
+            b[i] = match b[i] { 0 => *rng.pick(&[6, 7, 8, 9, 1, 2, 3]), 6 => 7, 7 => 8, 8 => 9, 4 => 5, 11 => *rng.pick(&[12, 26]), 13 => 27, 26 => 11, 27 => 13, 14 => *rng.pick(&[15, 22]), 16 => *rng.pick(&[17, 24]), 22 => 14, 24 => 16, x => (x + 1) % 18 };
         }
         _ => {}
     }
